@@ -35,6 +35,12 @@
             candidate kinds (PairInterp), whatever its spelling (and-chain, any() over a table, dict, helper); the kinds
             include a meter whose successors are of different kinds and the grid meter: neither is anybody's primary.
 
+  C19.COVER the function that builds the primary -> fallbacks map from the requested component set (bound by role: it consults
+            the pairing predicate and records entries of the map it returns) records a primary that is NOT itself requested --
+            the meter in front of a requested device -- only on paths that established that everything the meter measures is
+            requested (successors(<primary>) subset of the requested set, in any spelling, also inside a private helper or a
+            closure): decided as "no recording site is reachable in the scenario `some successor is not requested`" (F24).
+
   C19.LOOP  the loop that drives a formula survives every failing round: each Exception-family edge out of
             `await evaluator.apply()` enters a handler that certainly catches it (Exception / BaseException / bare) and
             from which the next evaluation follows (no raise / return / break).
@@ -56,7 +62,7 @@ from ..engine.cfg import own_parts
 from ..engine.report import AnalysisError, Run
 from ..engine.resolver import Program, body_walk
 from ..engine.util import canon, canon_total, find_calls, method_call, u
-from ._c06_util import EVAL_CLS, AliasStates, engine_loop, rereport, expr_guards, tri, resyncs_on_divergence, VALID_HINT, Flow, HelperCalls, indent_of, inline_all, is_validity_call, validity_name, lifted, names_eq, pruned, unawait, seg, spliced, src_patch, stmt_patch, truth_atom
+from ._c06_util import EVAL_CLS, AliasStates, select_ifexp, engine_loop, rereport, expr_guards, tri, resyncs_on_divergence, VALID_HINT, Flow, HelperCalls, indent_of, inline_all, is_validity_call, validity_name, lifted, names_eq, pruned, unawait, seg, spliced, src_patch, stmt_patch, truth_atom
 
 STEPS = "timeseries.formula_engine._formula_steps"
 MF = f"{STEPS}:MetricFetcher"
@@ -1445,7 +1451,7 @@ def cover_sites(prog: Program) -> tuple[Any, Flow, str, list[tuple[int, ast.AST,
     for m in cls.methods.values():
         if m.name in stop:
             continue
-        reach = {f.name for f in _self_callees(prog, cls, m) if f is not m}
+        reach = _reach_names(cls, m)
         if pair_fn.name in reach:
             cands.append((len(reach), m.name, m))
     last: AnalysisError | None = None
@@ -1456,6 +1462,20 @@ def cover_sites(prog: Program) -> tuple[Any, Flow, str, list[tuple[int, ast.AST,
             last = exc
     raise AnalysisError(f"{cls.qual}: no method builds the primary -> fallbacks map from a requested set "
                         f"(candidates: {sorted(t[1] for t in cands)}; {last})")
+
+
+def _reach_names(cls: Any, m: Any) -> set[str]:
+    """Names of the methods of `cls` reached from m through `self.<x>(..)` calls, also from inside its local closures."""
+    seen: set[str] = set()
+    todo = [m]
+    while todo:
+        f = todo.pop()
+        for c in ast.walk(f.node):
+            if isinstance(c, ast.Call) and isinstance(c.func, ast.Attribute) and u(c.func.value) == "self" and c.func.attr in cls.methods \
+                    and c.func.attr not in seen and c.func.attr != m.name:
+                seen.add(c.func.attr)
+                todo.append(cls.methods[c.func.attr])
+    return seen
 
 
 def _cover_unit(prog: Program, raw: Any, pair_fn: Any, meter_fn: Any) -> tuple[Any, Flow, str, list[tuple[int, ast.AST, ast.AST]], Any]:
@@ -1523,10 +1543,24 @@ def _cover_unit(prog: Program, raw: Any, pair_fn: Any, meter_fn: Any) -> tuple[A
     if not sites:
         raise AnalysisError(f"{raw.qual}: no site records an entry of the returned map")
 
+    def leaves(f: Flow, e: ast.AST, nid: int | None, fuel: int = 6) -> list[Any]:
+        """The objects `e` may denote: its origins, conditional expressions read alternative by alternative, None left out
+        (`primary = cand if <test> else None`: where it is a component at all, it is `cand`)."""
+        out: list[Any] = []
+        for o in f.origin(e, nid):
+            x = o.node if o.kind == "expr" else None
+            if isinstance(x, ast.IfExp) and fuel > 0 and o.nid is not None:
+                out += leaves(o.flow, x.body, o.nid, fuel - 1) + leaves(o.flow, x.orelse, o.nid, fuel - 1)
+            elif isinstance(x, ast.Constant) and x.value is None:
+                continue
+            else:
+                out.append(o)
+        return out
+
     def measured_by(f: Flow, e: ast.AST, nid: int, key: ast.AST, knid: int) -> bool:
         """`e` (in flow f: the builder or a private helper it calls) is the set of everything the component `key` measures:
         graph.successors(<key>.component_id), or what the selection of a meter's fallback components returns for it."""
-        korg = fl.origin(key, knid)
+        korg = leaves(fl, key, knid)
         org = f.origin(e, nid)
         for q in org:
             c = q.call()
@@ -1536,10 +1570,10 @@ def _cover_unit(prog: Program, raw: Any, pair_fn: Any, meter_fn: Any) -> tuple[A
             if c.func.attr == "successors" and len(args) == 1:
                 ids = [z for z in q.flow.origin(args[0], q.nid)]
                 if not ids or not all(z.kind == "expr" and isinstance(z.node, ast.Attribute) and z.node.attr == "component_id"
-                                      and names_eq(z.flow.origin(z.node.value, z.nid), korg) for z in ids):
+                                      and names_eq(leaves(z.flow, z.node.value, z.nid), korg) for z in ids):
                     return False
             elif c.func.attr == meter_fn.name and u(c.func.value) == "self" and len(args) == 1:
-                if not names_eq(q.flow.origin(args[0], q.nid), korg):
+                if not names_eq(leaves(q.flow, args[0], q.nid), korg):
                     return False
             else:
                 return False
@@ -1553,9 +1587,13 @@ def _cover_unit(prog: Program, raw: Any, pair_fn: Any, meter_fn: Any) -> tuple[A
         o = f.origin(e, nid)
         return bool(o) and all(q.kind == "param" and q.name == req and q.flow is fl for q in o)
 
-    def cover_test(key: ast.AST, knid: int, f: Flow | None = None, depth: int = 0) -> Any:
-        """Atom (for flow f): the verdict of a condition under "NOT everything `key` measures is requested"."""
+    def cover_test(key: ast.AST, knid: int, f: Flow | None = None, depth: int = 0, box: dict[str, Any] | None = None) -> Any:
+        """Atom (for flow f): the verdict of a condition under "NOT everything `key` measures is requested".  `box["edge"]`,
+        once set, is the edge filter of that scenario on the builder: `x is None` is then decided from the definitions of x
+        the scenario can execute (`return cand if <covered> else None`, `if <covered>: return cand` ... `return None`)."""
         f = f or fl
+        box = box if box is not None else {}
+        scn = (lambda f_: box.get("edge") if f_ is fl else None)  # noqa: E731
 
         def meas(e: ast.AST, nid: int) -> bool:
             return measured_by(f, e, nid, key, knid)  # type: ignore[arg-type]
@@ -1563,6 +1601,17 @@ def _cover_unit(prog: Program, raw: Any, pair_fn: Any, meter_fn: Any) -> tuple[A
         def atom(e: ast.AST, nid: int) -> bool | None:
             if isinstance(e, ast.Call) and u(e.func) == "bool" and len(e.args) == 1:
                 return tri(e.args[0], lambda x: lifted(f, atom)(x, nid))  # type: ignore[arg-type]
+            ta = truth_atom(e)
+            if ta is not None and isinstance(ta[0], ast.Name):
+                alts: list[ast.AST] = []
+                for o in f.origin(ta[0], nid, through_helpers=False, scenario=scn):  # type: ignore[union-attr]
+                    if o.kind != "expr" or o.node is None or o.nid is None:
+                        alts = []
+                        break
+                    alts += select_ifexp(o.node, lambda x, o=o: lifted(o.flow, cover_test(key, knid, o.flow, depth, box))(x, o.nid)
+                                         if o.flow is f or depth < 3 else None)
+                if alts and all(isinstance(v, ast.Constant) and v.value is None for v in alts):
+                    return ta[1]
             if isinstance(e, ast.Call) and isinstance(e.func, ast.Attribute) and len(e.args) == 1 and not e.keywords:
                 if e.func.attr == "issubset" and meas(e.func.value, nid) and is_req(f, e.args[0], nid):
                     return False
@@ -1608,7 +1657,7 @@ def _cover_unit(prog: Program, raw: Any, pair_fn: Any, meter_fn: Any) -> tuple[A
                 # a private predicate helper (`self._all_requested(meter, wanted)`): decided when all of its returns agree
                 ch = f.child(e, nid)
                 if ch is not None and not ch.fn.is_async:
-                    inner = lifted(ch, cover_test(key, knid, ch, depth + 1))
+                    inner = lifted(ch, cover_test(key, knid, ch, depth + 1, box))
                     verdicts = set()
                     for r in ch.returns():
                         v = ch.cfg.nodes[r].ast.value  # type: ignore[union-attr]
@@ -1644,7 +1693,9 @@ def check_cover(run: Run, prog: Program) -> None:
         run.ok("C19.COVER", f"{raw.qual}: every primary recorded is an element of the requested set `{req}`")
         return
     for nid, key, construct in sites:
-        edge = pruned(cfg, lifted(fl, cover_test(key, nid)), normal_only=False)
+        box: dict[str, Any] = {}
+        edge = pruned(cfg, lifted(fl, cover_test(key, nid, box=box), scenario=lambda f_: box.get("edge") if f_ is fl else None), normal_only=False)
+        box["edge"] = edge
         wit = cfg.path(cfg.entry, [nid], edge_ok=edge)
         run.check(wit is None, "C19.COVER", raw.qual, construct,
                   f"`{u(construct)[:90]}` records `{u(key)[:40]}` -- a component that is NOT one of the requested `{req}` (it is reached "
@@ -1926,8 +1977,27 @@ def build_controls(prog: Program) -> list[tuple[str, str, str, str, str]]:
                 _pf, c, lambda t, txt=txt, arg=arg: t.replace(txt, f"({arg}.category == ComponentCategory.METER)", 1)), "C19.PAIR")
     except AnalysisError:
         pass
+    # COVER: the meter stands in for a requested device whether or not everything it measures was requested
+    try:
+        b_raw, _bfl, b_req, _bs, _ct = cover_sites(prog)
+        holders = [b_raw] + [f for f in _self_callees(prog, prog.cls(FG), b_raw) if f is not b_raw]
+        hit_c = None
+        for h in holders:
+            for x in ast.walk(h.node):
+                if isinstance(x, ast.Call) and isinstance(x.func, ast.Attribute) and x.func.attr in ("issubset", "issuperset") and len(x.args) == 1 \
+                        and "successors" in u(x):
+                    hit_c = hit_c or (h, x)
+                elif isinstance(x, ast.Compare) and len(x.ops) == 1 and isinstance(x.ops[0], (ast.LtE, ast.GtE)) and "successors" in u(x):
+                    hit_c = hit_c or (h, x)
+        if hit_c is not None:
+            h, x = hit_c
+            txt = seg(h.module, x)
+            add("meter stands in for a subset of what it measures", h.module.name, src_patch(
+                h.module, x.lineno, x.end_lineno or x.lineno, lambda t, txt=txt: t.replace(txt, "True", 1) if txt in t else t), "C19.COVER")
+    except AnalysisError:
+        pass
     if len(out) < 4:
-        raise AnalysisError(f"C19: only {len(out)} of 19 seeded controls could be derived from the source "
+        raise AnalysisError(f"C19: only {len(out)} of 20 seeded controls could be derived from the source "
                             f"({[o[0] for o in out]})")
     return out
 
@@ -1966,6 +2036,9 @@ def check(run: Run, prog: Program, tier: str) -> str:
     run.rule("C19.PAIR", "which components back which meter: the selection of a meter's fallback components and the (device, meter) "
              "pair table name the same device kinds, each pair is the component graph's own definition of that meter kind, and "
              "a meter that is not dedicated to one kind (or the grid meter) is nobody's primary")
+    run.rule("C19.COVER", "where the primary -> fallbacks map is built from a requested component set, a primary that is not itself "
+             "requested (the meter in front of a requested device) is recorded only on paths that established that all its "
+             "successors are requested: primary and fallback of one term measure the same thing")
     run.rule("C19.LOOP", "the loop that drives a formula survives every failing round: whatever Exception evaluator.apply() raises "
              "is caught (Exception / BaseException / bare) and followed by the next evaluation")
     run.rule("C19.RESYNC", "the consumer's re-alignment, on which the unsynchronised fallback sample of the primary-error path relies, "
@@ -1981,6 +2054,7 @@ def check(run: Run, prog: Program, tier: str) -> str:
     run.floor("C19.SYNC", 8)
     run.floor("C19.METRIC", 3)
     run.floor("C19.PAIR", 5)
+    run.floor("C19.COVER", 1)
     from ..engine.controls import run_controls
 
     run_controls(run, [] if run.violations else build_controls(prog), run_rules, tier)
